@@ -46,6 +46,9 @@ func init() {
 			obs = append(obs, c.Pools("net/packet")...)
 			obs = append(obs, c.VarLen()...)
 			obs = append(obs, c.BitFields("net/packet")...)
+			obs = append(obs, c.GroupOrder("net/packet")...)
+			obs = append(obs, c.LengthPrefixes("net/packet")...)
+			obs = append(obs, filterObs(c.NoReadAhead(), func(o core.Ob) bool { return strings.Contains(o.Key, "packet") || o.Key == "scope" })...)
 			obs = append(obs, c.CountingWrappers("net/packet")...)
 			return obs
 		},
@@ -79,6 +82,9 @@ func init() {
 			obs = append(obs, c.TLGObs(in, in, false)...)
 			obs = append(obs, c.PaletteResizeCopiesAll()...)
 			obs = append(obs, c.PaletteReadResets()...)
+			obs = append(obs, c.ResizeWidth()...)
+			obs = append(obs, c.BitStorageReadLength()...)
+			obs = append(obs, c.BitWidthInverse()...)
 			obs = append(obs, c.PaletteConfig()...)
 			obs = append(obs, c.BitStorageFixSibling()...)
 			return obs
@@ -99,6 +105,9 @@ func init() {
 			obs = append(obs, c.LoopDecodeTargets("level", "save")...)
 			obs = append(obs, c.HeightMapNetwork()...)
 			obs = append(obs, c.BitFields("level")...)
+			obs = append(obs, c.BitWidthInverse()...)
+			obs = append(obs, c.InitOrder("level", "level/block", "level/biome", "level/component", "level/block/states")...)
+			obs = append(obs, c.ResizeWidth()...)
 			obs = append(obs, c.PaletteReadResets()...)
 			return obs
 		},
@@ -116,6 +125,9 @@ func init() {
 			obs = append(obs, c.ShortFormCoversFields("chat")...)
 			obs = append(obs, c.StringIndexGuards(pkgPred("chat"))...)
 			obs = append(obs, c.LenMinusGuards(pkgPred("chat"))...)
+			obs = append(obs, c.StringVarIndexGuards(pkgPred("chat"))...)
+			obs = append(obs, c.ConvertedStructTags("chat")...)
+			obs = append(obs, c.SignedArrayTargets("chat")...)
 			return obs
 		},
 	}
@@ -128,6 +140,9 @@ func init() {
 			obs = append(obs, c.CompressionSwitch()...)
 			obs = append(obs, c.OfflineUUID()...)
 			obs = append(obs, c.ReceiveBufferPerPacket()...)
+			obs = append(obs, c.Pools("net/packet")...)
+			obs = append(obs, c.DrainBeforeClose("net/queue")...)
+			obs = append(obs, filterObs(c.LengthPrefixes("net/packet"), func(o core.Ob) bool { return strings.Contains(o.Key, "(String)") || strings.Contains(o.Key, "(Identifier)") })...)
 			gate := pkgPred("server", "server/auth", "bot")
 			gateArmed := pkgPred("server", "server/auth")
 			obs = append(obs, c.ErrFlow(gate, gateArmed)...)
@@ -140,6 +155,9 @@ func init() {
 		Run: func(c *Ctx) []core.Ob {
 			obs := c.Locks()
 			obs = append(obs, c.Pools("net/packet", "nbt", "nbt/dynbt", "level")...)
+			obs = append(obs, c.DrainBeforeClose("net/queue")...)
+			obs = append(obs, c.ReceiveBufferPerPacket()...)
+			obs = append(obs, c.CachedValuesImmutable("nbt", "nbt/dynbt", "net/packet", "level")...)
 			return obs
 		},
 	}
